@@ -1,0 +1,17 @@
+//go:build verif
+
+// Contracts for the deductive verifier in /verif (govc) — indexer / JSON-RPC helpers (C14). This file contains no code:
+// with the build tag off it is not part of the package, with it on it adds nothing to the build.
+package types
+
+//@ import abci "github.com/cometbft/cometbft/abci/types"
+
+// events.go: a transaction was dropped before the ante handler (block gas excess) iff it failed and emitted no
+// ethereum_tx event (that event is emitted by the ante handler).
+//@ func TxWasDroppedPreAnteHandleDueToBlockGasExcess(res *abci.ExecTxResult) bool
+//@   requires res != nil
+//@   modifies nothing
+//@   ensures[C14.dropped_rule] result == (res.Code != 0 && !(exists j int :: {res.Events[j].Type} 0 <= j && j < len(res.Events) && res.Events[j].Type == EventTypeEthereumTx))
+//@   panics[C14.dropped_never_panics] never
+//@ loop 1
+//@   invariant -1 <= rangeindex && rangeindex < len(res.Events) && (forall j int :: {res.Events[j].Type} (0 <= j && j <= rangeindex) ==> res.Events[j].Type != EventTypeEthereumTx)
